@@ -34,6 +34,10 @@ Record msg : Type := {
   m_tag : Z                      (* opaque payload tag so that distinct messages stay distinct *)
 }.
 
+(* the environment's choice whether the application's request handler raises on this message travels in the tag *)
+Definition TAG_HANDLER_RAISES : Z := 1.
+Definition handler_raises (m : msg) : bool := m_tag m =? TAG_HANDLER_RAISES.
+
 (* what the node puts on the wire, as far as the properties look at it *)
 Record omsg : Type := {
   o_cmd : cmd; o_req : bool; o_app : Z; o_hbh : Z; o_e2e : Z;
@@ -234,8 +238,14 @@ Definition remove_z (x : Z) (l : list Z) : list Z := List.filter (fun y => negb 
 Definition inter_z (a b : list Z) : list Z := List.filter (fun x => mem_z x b) a.
 
 (* node.auth_application_ids / acct_application_ids *)
-Definition node_auth (n : node) : list Z := List.map a_id (List.filter a_auth (n_apps n)).
-Definition node_acct (n : node) : list Z := List.map a_id (List.filter a_acct (n_apps n)).
+(* (Python sets: an application id registered twice counts once) *)
+Fixpoint dedup_z (l : list Z) : list Z :=
+  match l with
+  | [] => []
+  | x :: r => if mem_z x r then dedup_z r else x :: dedup_z r
+  end.
+Definition node_auth (n : node) : list Z := dedup_z (List.map a_id (List.filter a_auth (n_apps n))).
+Definition node_acct (n : node) : list Z := dedup_z (List.map a_id (List.filter a_acct (n_apps n))).
 
 (* _find_connection_peer: by node_name, else by host_identity *)
 Definition find_conn_peer (n : node) (c : conn) : option peer :=
@@ -407,6 +417,11 @@ Definition election_rivals (n : node) (cid : nat) (host : string) : list nat :=
   List.map c_id (List.filter (fun c => negb (Nat.eqb (c_id c) cid) && String.eqb (c_node_name c) host) (n_conns n)).
 
 Definition recv_cer (n : node) (cid : nat) (m : msg) : node * list output :=
+  match get_conn n cid with
+  | None => (n, [])
+  | Some c0 =>
+  if negb (cstate_eqb (c_state c0) SConnected) then (n, [])     (* only while the CER is awaited *)
+  else
   match pres_get (m_origin m) with
   | None => (n, [])      (* cannot happen after validation; AttributeError path handled by the caller *)
   | Some host =>
@@ -438,6 +453,7 @@ Definition recv_cer (n : node) (cid : nat) (m : msg) : node * list output :=
               end
           end
       end
+  end
   end.
 
 (* receive_cea: only while the answer is awaited (CONNECTED); a result other than 2001, or an Origin-Host
@@ -536,7 +552,11 @@ Definition recv_app_request (n : node) (cid : nat) (m : msg) : node * list outpu
               | Some (RApp i, _) =>
                   let n1 := set_waiting n (n_app_waiting n) (pw_add (n_peer_waiting n) (c_host c) (m_hbh m, m_e2e m))
                                         (n_origin_waiting n) (n_sent_answers n) in
-                  (n1, [ODeliver i m])
+                  (* Application.receive_request runs the application's handler in the reader thread; when it raises,
+                     the catch-all of _receive_message answers UNABLE_TO_COMPLY *)
+                  if handler_raises m
+                  then let '(n2, o) := send_message n1 cid (answer_of m (Some RC_UNABLE) []) in (n2, ODeliver i m :: o)
+                  else (n1, [ODeliver i m])
               | _ => send_message n cid (answer_of m (Some RC_APP_UNSUPPORTED) [])
               end
           end
